@@ -18,6 +18,8 @@ var c13Specs = []famSpec{
 	{Family: "mag-scale-bool", FreshQ: 5000, FreshT: 250000},
 	{Family: "mag-translate-misc", FreshQ: 3000, FreshT: 150000},
 	{Family: "mag-scale-misc", FreshQ: 3000, FreshT: 150000},
+	{Family: "mag-anchor-bool", FreshQ: 3000, FreshT: 150000},
+	{Family: "mag-anchor-misc", FreshQ: 4000, FreshT: 200000},
 }
 
 func init() {
@@ -25,7 +27,8 @@ func init() {
 		ID: "C13",
 		Rule: "metamorphic + exact oracle at large magnitudes. mag-translate-*: a base input (generic random / nested / rectilinear, extent <= 2^21) is translated by a random vector with components up to +-(2^52 - extent); mag-scale-*: a small base input is multiplied by 2^k so that the largest coordinate reaches 2^30 .. 2^61. " +
 			"bool: all 4 clip types x 1 fill rule on the transformed input, result compared with the exact winding oracle (128-bit, valid to 2^62) at the images of points that are > 2 units from every base edge; misc: Area64 against the exact shoelace (when it fits int64), PointInPolygon against exact classification, RectClipPaths64 winding inside the transformed rectangle, InflatePaths64 of the translated input against the translated result of the base input (band 2+1), SimplifyPath64 retained vertices invariant. " +
-			"Non-trivial = transformed magnitude >= 2^31 and >= 1 eligible point compared; distinct by (base digest, transform).",
+			"mag-anchor-*: the small end of the range - the base input is translated so that one of its notable points (vertex, rectangle corner, rounded edge/edge or edge/rectangle intersection) lies exactly at the origin or on an axis, and is judged by the same oracles. " +
+			"Non-trivial = transformed magnitude >= 2^31 (anchor families: any) and >= 1 eligible point compared; distinct by (base digest, transform).",
 		Assumptions: []string{"failures on inputs whose coordinate DIFFERENCES exceed 2^31 are attributed to the known finding 'int64 products of coordinate differences overflow' by that magnitude test alone; below it nothing is attributed"},
 		Floor:       500,
 		Cases:       func(tier string, seed uint64) []run.CaseID { return buildCases(c13Specs, tier, seed) },
@@ -83,10 +86,56 @@ func c13Run(ctx *run.Ctx, id run.CaseID) {
 	clip.VerifSetStepBudget(1 << 20)
 	r := gen.ForCase(id.Family, id.Index, id.Stream)
 	scale := id.Family == "mag-scale-bool" || id.Family == "mag-scale-misc"
+	anchor := id.Family == "mag-anchor-bool" || id.Family == "mag-anchor-misc"
 	subj, clp := c13Base(r, scale)
 	ext := max(gen.MaxAbs(subj, clp), 1)
 	var tx, ty, s int64 = 0, 0, 1
-	if scale {
+	var anchorRect *rectI
+	if anchor {
+		// the other end of the magnitude range: a small translation that puts a notable point of the input (a vertex, a
+		// rectangle corner, a rounded edge/edge or edge/rectangle-side intersection) exactly at the origin or on an axis,
+		// where zero-valued coordinates and zero-value sentinels live
+		ra := gen.ForCase(id.Family+"#anchor", id.Index, id.Stream)
+		q := pickRect(ra, subj, ra.Chance(0.3))
+		anchorRect = &q
+		rectPath := Path{{X: q.L, Y: q.T}, {X: q.R, Y: q.T}, {X: q.R, Y: q.B}, {X: q.L, Y: q.B}}
+		var pts []Pt
+		var segs [][2]Pt
+		sets := []Paths{subj, clp}
+		if id.Family == "mag-anchor-misc" {
+			sets = []Paths{subj, {rectPath}}
+			pts = append(pts, rectPath...)
+		}
+		for _, ps := range sets {
+			for _, p := range ps {
+				pts = append(pts, p...)
+				for i := range p {
+					segs = append(segs, [2]Pt{p[i], p[(i+1)%len(p)]})
+				}
+			}
+		}
+		var xs []Pt
+		for i := 0; i < len(segs) && len(xs) < 200; i++ {
+			for j := i + 1; j < len(segs); j++ {
+				if x, y, ok := oracle.SegSegIntersectF(segs[i][0], segs[i][1], segs[j][0], segs[j][1]); ok {
+					xs = append(xs, Pt{X: int64(math.Round(x)), Y: int64(math.Round(y))})
+				}
+			}
+		}
+		var a Pt
+		if len(xs) > 0 && ra.Chance(0.7) {
+			a = xs[ra.Intn(len(xs))]
+		} else if len(pts) > 0 {
+			a = pts[ra.Intn(len(pts))]
+		}
+		tx, ty = -a.X, -a.Y
+		switch ra.Intn(5) {
+		case 0:
+			tx += ra.Range(-3, 3) // on the y-axis only (nearly)
+		case 1:
+			ty += ra.Range(-3, 3)
+		}
+	} else if scale {
 		// choose k so that the largest coordinate lands in [2^30, 2^61]
 		target := uint(30 + r.Intn(32))
 		k := uint(0)
@@ -228,6 +277,9 @@ func c13Run(ctx *run.Ctx, id run.CaseID) {
 		}
 		{
 			q := pickRect(r, subj, false)
+			if anchorRect != nil {
+				q = *anchorRect
+			}
 			tq := rectI{q.L*s + tx, q.T*s + ty, q.R*s + tx, q.B*s + ty}
 			var rc Paths
 			if ctx.Guard(digest, "RectClipPaths64", in, func() { rc = clip.RectClipPaths64(tq.lib(), tS) }) {
@@ -309,7 +361,7 @@ func c13Run(ctx *run.Ctx, id run.CaseID) {
 		}
 	}
 	ctx.Count("points_compared", int64(compared))
-	if magn >= int64(1)<<31 && compared > 0 {
+	if (magn >= int64(1)<<31 || anchor) && compared > 0 {
 		ctx.NontrivialHash(run.DigestInts(int64(id.Index), int64(id.Stream), s, tx, ty))
 		if ctx.WantSample() {
 			ctx.Sample(map[string]any{"case": id.String(), "input": in})
